@@ -65,8 +65,11 @@ Ltac prefix_step :=
   match goal with
   | |- context [@vindex ?O (VDict _ (pref ?p ?l)) ?k] =>
       let k' := eval cbv -[append] in k in
-      change (@vindex O (VDict O (pref p l)) k) with (@vindex O (VDict O (pref p l)) k');
-      rewrite vindex_pref
+      lazymatch k' with
+      | VStr _ (p ++ ?suffix) =>
+          replace (@vindex O (VDict O (pref p l)) k) with (@vindex O (VDict O l) (VStr O suffix))
+            by (symmetry; exact (vindex_pref O p suffix l))
+      end
   end.
 
 Ltac eqR := lazymatch goal with |- @eq _ ?a ?b => change (@eq R a b) end.
@@ -186,8 +189,8 @@ Proof using Hdmx Hdmy.
   intros Hsx HsA Hs Hdx.
   assert (0 < (x - mu) * (x - mu) + s * s) by (apply lorentz_den_pos; lra).
   assert (0 < (x * sx - mu * sx) * (x * sx - mu * sx) + s * sx * (s * sx)) by (apply lorentz_den_pos; nra).
-  all_dims; all_num;
-    unfold PseudoVoigtModel__call, pvdict, pvlist, plist, p_gaussian, p_lorentzian; simpl app; run; final;
+  unfold PseudoVoigtModel__call, pvdict, pvlist, plist, p_gaussian, p_lorentzian; simpl app;
+    all_dims; all_num; run; final;
     (qty_intro; [close_unit | unfold pvoigt, gauss, lorentz, sigma_g; close_val]).
 Qed.
 
@@ -201,21 +204,21 @@ Lemma gaussian_fwhm_closed p A sA mu s sx :
   sx > 0 ->
   is_qty h mn (GaussianModel_fwhm O (selfp p) (pdictp p A sA mu s sx)) (fwhm_gauss (s * sx)) sx dmx DF64.
 Proof using Hdmx Hdmy.
-  intros Hsx. all_dims; unfold GaussianModel_fwhm, selfp, pdictp, plist; prefix_step; final;
+  intros Hsx. unfold GaussianModel_fwhm, selfp, pdictp, plist; all_dims; prefix_step; final;
     (qty_intro; [close_unit | unfold fwhm_gauss; close_val]).
 Qed.
 Lemma lorentzian_fwhm_closed p A sA mu s sx :
   sx > 0 ->
   is_qty h mn (LorentzianModel_fwhm O (selfp p) (pdictp p A sA mu s sx)) (fwhm_lorentz (s * sx)) sx dmx DF64.
 Proof using Hdmx Hdmy.
-  intros Hsx. all_dims; unfold LorentzianModel_fwhm, selfp, pdictp, plist; prefix_step; final;
+  intros Hsx. unfold LorentzianModel_fwhm, selfp, pdictp, plist; all_dims; prefix_step; final;
     (qty_intro; [close_unit | unfold fwhm_lorentz; close_val]).
 Qed.
 Lemma pvoigt_fwhm_closed p A sA mu s sx f :
   sx > 0 ->
   is_qty h mn (PseudoVoigtModel_fwhm O (selfp p) (pvdictp p A sA mu s sx f)) (fwhm_lorentz (s * sx)) sx dmx DF64.
 Proof using Hdmx Hdmy.
-  intros Hsx. all_dims; unfold PseudoVoigtModel_fwhm, selfp, pvdictp, pvlist, plist; simpl app; prefix_step; final;
+  intros Hsx. unfold PseudoVoigtModel_fwhm, selfp, pvdictp, pvlist, plist; simpl app; all_dims; prefix_step; final;
     (qty_intro; [close_unit | unfold fwhm_lorentz; close_val]).
 Qed.
 
@@ -358,7 +361,7 @@ Fixpoint physc (i : nat) (l : list R) (sy sx : R) : list R :=
 Definition selfpoly (n : Z) : val O := VDict O [("_prefix", VStr O ""); ("degree", VInt O n)].
 
 Ltac poly_tac :=
-  all_dims; all_num; unfold PolynomialModel__call, selfpoly; run; final;
+  unfold PolynomialModel__call, selfpoly; cbn [pcoefs]; all_dims; all_num; run; final;
   (qty_intro; [close_unit | unfold poly_sum; cbn [psum physc pow]; eqR; field; lra]).
 
 Lemma polynomial_closed_1 a0 a1 x sx sy dx : sx > 0 -> sy > 0 -> is_num dx = true ->
